@@ -2262,7 +2262,7 @@ pub proof fn lemma_flat_push(s: Seq<EncodingStep>, x: EncodingStep, p: MqttPacke
 //@fn gneiss-mqtt/src/mqtt/pingreq.rs write_pingreq_encoding_steps props=C02,C14
     ensures
         r is Ok,
-        forall|pk: MqttPacket| steps_wf(old(steps)@, pk) ==> steps_wf(final(steps)@, pk),
+        forall|pk: MqttPacket| steps_wf(old(steps)@, pk) ==> #[trigger] steps_wf(final(steps)@, pk),
         // OASIS 3.12: PINGREQ is the two bytes C0 00 in both protocol versions
         forall|pk: MqttPacket| #[trigger] flat(final(steps)@, pk) == flat(old(steps)@, pk) + seq![0xC0u8, 0u8],
 //@@at bodystart
@@ -2283,7 +2283,7 @@ pub proof fn lemma_flat_push(s: Seq<EncodingStep>, x: EncodingStep, p: MqttPacke
 //@fn gneiss-mqtt/src/mqtt/disconnect.rs write_disconnect_encoding_steps311 props=C02,C07
     ensures
         r is Ok,
-        forall|pk: MqttPacket| steps_wf(old(steps)@, pk) ==> steps_wf(final(steps)@, pk),
+        forall|pk: MqttPacket| steps_wf(old(steps)@, pk) ==> #[trigger] steps_wf(final(steps)@, pk),
         // OASIS 3.1.1 section 3.14: DISCONNECT is the two bytes E0 00
         forall|pk: MqttPacket| #[trigger] flat(final(steps)@, pk) == flat(old(steps)@, pk) + seq![0xE0u8, 0u8],
 //@@at bodystart
@@ -2304,7 +2304,7 @@ pub proof fn lemma_flat_push(s: Seq<EncodingStep>, x: EncodingStep, p: MqttPacke
 //@fn gneiss-mqtt/src/mqtt/puback.rs write_puback_encoding_steps311 props=C02 via=gneiss-mqtt/src/encode.rs:define_ack_packet_encoding_impl311
     ensures
         r is Ok,
-        forall|pk: MqttPacket| steps_wf(old(steps)@, pk) ==> steps_wf(final(steps)@, pk),
+        forall|pk: MqttPacket| steps_wf(old(steps)@, pk) ==> #[trigger] steps_wf(final(steps)@, pk),
         // OASIS 3.1.1 section 3.4: fixed header 0x40, Remaining Length 2, Packet Identifier MSB LSB
         forall|pk: MqttPacket| #[trigger] flat(final(steps)@, pk) == flat(old(steps)@, pk) + (seq![0x40u8, 2u8] + be16_bytes(packet.packet_id)),
 //@@at bodystart
@@ -2325,7 +2325,7 @@ pub proof fn lemma_flat_push(s: Seq<EncodingStep>, x: EncodingStep, p: MqttPacke
 //@fn gneiss-mqtt/src/mqtt/pubrec.rs write_pubrec_encoding_steps311 props=C02 via=gneiss-mqtt/src/encode.rs:define_ack_packet_encoding_impl311
     ensures
         r is Ok,
-        forall|pk: MqttPacket| steps_wf(old(steps)@, pk) ==> steps_wf(final(steps)@, pk),
+        forall|pk: MqttPacket| steps_wf(old(steps)@, pk) ==> #[trigger] steps_wf(final(steps)@, pk),
         // OASIS 3.1.1 section 3.5: fixed header 0x50, Remaining Length 2, Packet Identifier MSB LSB
         forall|pk: MqttPacket| #[trigger] flat(final(steps)@, pk) == flat(old(steps)@, pk) + (seq![0x50u8, 2u8] + be16_bytes(packet.packet_id)),
 //@@at bodystart
@@ -2346,7 +2346,7 @@ pub proof fn lemma_flat_push(s: Seq<EncodingStep>, x: EncodingStep, p: MqttPacke
 //@fn gneiss-mqtt/src/mqtt/pubrel.rs write_pubrel_encoding_steps311 props=C02 via=gneiss-mqtt/src/encode.rs:define_ack_packet_encoding_impl311
     ensures
         r is Ok,
-        forall|pk: MqttPacket| steps_wf(old(steps)@, pk) ==> steps_wf(final(steps)@, pk),
+        forall|pk: MqttPacket| steps_wf(old(steps)@, pk) ==> #[trigger] steps_wf(final(steps)@, pk),
         // OASIS 3.1.1 section 3.6: fixed header 0x62, Remaining Length 2, Packet Identifier MSB LSB
         forall|pk: MqttPacket| #[trigger] flat(final(steps)@, pk) == flat(old(steps)@, pk) + (seq![0x62u8, 2u8] + be16_bytes(packet.packet_id)),
 //@@at bodystart
@@ -2367,7 +2367,7 @@ pub proof fn lemma_flat_push(s: Seq<EncodingStep>, x: EncodingStep, p: MqttPacke
 //@fn gneiss-mqtt/src/mqtt/pubcomp.rs write_pubcomp_encoding_steps311 props=C02 via=gneiss-mqtt/src/encode.rs:define_ack_packet_encoding_impl311
     ensures
         r is Ok,
-        forall|pk: MqttPacket| steps_wf(old(steps)@, pk) ==> steps_wf(final(steps)@, pk),
+        forall|pk: MqttPacket| steps_wf(old(steps)@, pk) ==> #[trigger] steps_wf(final(steps)@, pk),
         // OASIS 3.1.1 section 3.7: fixed header 0x70, Remaining Length 2, Packet Identifier MSB LSB
         forall|pk: MqttPacket| #[trigger] flat(final(steps)@, pk) == flat(old(steps)@, pk) + (seq![0x70u8, 2u8] + be16_bytes(packet.packet_id)),
 //@@at bodystart
@@ -2479,7 +2479,7 @@ pub proof fn lemma_push_step(s: Seq<EncodingStep>, x: EncodingStep, pk: MqttPack
         publish_remaining_len311(*packet) <= 268435455,             // ditto (bounded by the maximum packet size)
     ensures
         r is Ok,
-        forall|pk: MqttPacket| is_publish_of(pk, *packet) && steps_wf(old(steps)@, pk) ==> steps_wf(final(steps)@, pk),
+        forall|pk: MqttPacket| is_publish_of(pk, *packet) && steps_wf(old(steps)@, pk) ==> #[trigger] steps_wf(final(steps)@, pk),
         forall|pk: MqttPacket| is_publish_of(pk, *packet) ==> #[trigger] flat(final(steps)@, pk) == flat(old(steps)@, pk) + publish311_bytes(*packet),
 //@@at bodystart
     let ghost s0 = steps@;
@@ -2594,7 +2594,7 @@ pub open spec fn is_unsubscribe_of(pk: MqttPacket, p: UnsubscribePacket) -> bool
         2 + filters_len(packet.topic_filters@, packet.topic_filters@.len()) <= 268435455,
     ensures
         r is Ok,
-        forall|pk: MqttPacket| is_unsubscribe_of(pk, *packet) && steps_wf(old(steps)@, pk) ==> steps_wf(final(steps)@, pk),
+        forall|pk: MqttPacket| is_unsubscribe_of(pk, *packet) && steps_wf(old(steps)@, pk) ==> #[trigger] steps_wf(final(steps)@, pk),
         forall|pk: MqttPacket| is_unsubscribe_of(pk, *packet) ==> #[trigger] flat(final(steps)@, pk) == flat(old(steps)@, pk) + unsubscribe311_bytes(*packet),
 //@@at bodystart
     let ghost s0 = steps@;
@@ -2698,7 +2698,7 @@ pub open spec fn is_subscribe_of(pk: MqttPacket, p: SubscribePacket) -> bool { p
         2 + subs_len(packet.subscriptions@, packet.subscriptions@.len()) <= 268435455,
     ensures
         r is Ok,
-        forall|pk: MqttPacket| is_subscribe_of(pk, *packet) && steps_wf(old(steps)@, pk) ==> steps_wf(final(steps)@, pk),
+        forall|pk: MqttPacket| is_subscribe_of(pk, *packet) && steps_wf(old(steps)@, pk) ==> #[trigger] steps_wf(final(steps)@, pk),
         forall|pk: MqttPacket| is_subscribe_of(pk, *packet) ==> #[trigger] flat(final(steps)@, pk) == flat(old(steps)@, pk) + subscribe311_bytes(*packet),
 //@@at bodystart
     let ghost s0 = steps@;
@@ -2766,6 +2766,68 @@ pub open spec fn is_subscribe_of(pk: MqttPacket, p: SubscribePacket) -> bool { p
         assert(head + subs_bytes(packet.subscriptions@, packet.subscriptions@.len()) =~= subscribe311_bytes(*packet));
     }
 //@end
+
+
+// ---------------------------------------------------------------------------------------------------------------------------------
+// Closing the chain for MQTT 3.1.1 (C02): Encoder::reset for a 3.1.1 connection leaves exactly the steps of the packet's own writer, so
+// with Encoder::encode above, the bytes handed to the transport for PUBLISH, SUBSCRIBE, UNSUBSCRIBE, PUBACK, PUBREC, PUBREL, PUBCOMP,
+// PINGREQ and DISCONNECT are the standard's layout, whatever the buffer sizes. Writers not under contract here are signature-only stubs
+// with NO postcondition (CONNECT 3.1.1, the MQTT 5 dispatch, and the packets a client never sends).
+#[verifier::external_body] pub fn write_connect_encoding_steps311(packet: &ConnectPacket, context: &EncodingContext, steps: &mut VecDeque<EncodingStep>) -> GneissResult<()> { unimplemented!() }
+#[verifier::external_body] pub fn write_connack_encoding_steps311(packet: &ConnackPacket, context: &EncodingContext, steps: &mut VecDeque<EncodingStep>) -> GneissResult<()> { unimplemented!() }
+#[verifier::external_body] pub fn write_suback_encoding_steps311(packet: &SubackPacket, context: &EncodingContext, steps: &mut VecDeque<EncodingStep>) -> GneissResult<()> { unimplemented!() }
+#[verifier::external_body] pub fn write_unsuback_encoding_steps311(packet: &UnsubackPacket, context: &EncodingContext, steps: &mut VecDeque<EncodingStep>) -> GneissResult<()> { unimplemented!() }
+#[verifier::external_body] pub fn write_pingresp_encoding_steps(packet: &PingrespPacket, context: &EncodingContext, steps: &mut VecDeque<EncodingStep>) -> GneissResult<()> { unimplemented!() }
+#[verifier::external_body] pub fn write_auth_encoding_steps311(packet: &AuthPacket, context: &EncodingContext, steps: &mut VecDeque<EncodingStep>) -> GneissResult<()> { unimplemented!() }
+#[verifier::external_body] pub fn write_encoding_steps5(mqtt_packet: &MqttPacket, context: &EncodingContext, steps: &mut VecDeque<EncodingStep>) -> GneissResult<()> { unimplemented!() }
+
+// what a 3.1.1 client packet looks like on the wire (None: not specified here)
+pub open spec fn wire311(pk: MqttPacket) -> Option<Seq<u8>> {
+    match pk {
+        MqttPacket::Publish(p) => Some(publish311_bytes(p)),
+        MqttPacket::Subscribe(p) => Some(subscribe311_bytes(p)),
+        MqttPacket::Unsubscribe(p) => Some(unsubscribe311_bytes(p)),
+        MqttPacket::Puback(p) => Some(seq![0x40u8, 2u8] + be16_bytes(p.packet_id)),
+        MqttPacket::Pubrec(p) => Some(seq![0x50u8, 2u8] + be16_bytes(p.packet_id)),
+        MqttPacket::Pubrel(p) => Some(seq![0x62u8, 2u8] + be16_bytes(p.packet_id)),
+        MqttPacket::Pubcomp(p) => Some(seq![0x70u8, 2u8] + be16_bytes(p.packet_id)),
+        MqttPacket::Pingreq(_) => Some(seq![0xC0u8, 0u8]),
+        MqttPacket::Disconnect(_) => Some(seq![0xE0u8, 0u8]),
+        _ => None,
+    }
+}
+// what send-time validation (validate unit, C16) has established for the packet
+pub open spec fn sendable311(pk: MqttPacket) -> bool {
+    match pk {
+        MqttPacket::Publish(p) => blen(p.topic@) <= 65535 && publish_remaining_len311(p) <= 268435455,
+        MqttPacket::Subscribe(p) => subs_ok(p.subscriptions@) && count_ok(p.subscriptions@.len()) && 2 + subs_len(p.subscriptions@, p.subscriptions@.len()) <= 268435455,
+        MqttPacket::Unsubscribe(p) => filters_ok(p.topic_filters@) && count_ok(p.topic_filters@.len()) && 2 + filters_len(p.topic_filters@, p.topic_filters@.len()) <= 268435455,
+        _ => true,
+    }
+}
+
+//@fn gneiss-mqtt/src/encode.rs write_encoding_steps311 props=C02
+    requires sendable311(*mqtt_packet),
+    ensures
+        wire311(*mqtt_packet) is Some ==> r is Ok,
+        wire311(*mqtt_packet) matches Some(bytes) ==> flat(final(steps)@, *mqtt_packet) == flat(old(steps)@, *mqtt_packet) + bytes,
+        (wire311(*mqtt_packet) is Some && steps_wf(old(steps)@, *mqtt_packet)) ==> steps_wf(final(steps)@, *mqtt_packet),
+//@end
+
+impl Encoder {
+//@fn gneiss-mqtt/src/encode.rs Encoder::reset props=C02,C13
+    requires context.protocol_version == ProtocolVersion::Mqtt311 ==> sendable311(*packet),
+    ensures
+        // MQTT 3.1.1: the pending steps denote exactly the packet's wire image - with Encoder::encode, that is what the transport is handed
+        (context.protocol_version == ProtocolVersion::Mqtt311 && wire311(*packet) is Some) ==> {
+            &&& r is Ok
+            &&& flat(final(self).steps@, *packet) == wire311(*packet)->Some_0
+            &&& steps_wf(final(self).steps@, *packet)
+        },
+//@@at after "self.steps.clear();"
+        proof { assert(flat(self.steps@, *packet) =~= Seq::<u8>::empty()); }
+//@end
+}
 
 } // verus!
 fn main() {}
